@@ -705,7 +705,13 @@ class CallMixin(ExprMixin):
             if isinstance(r, Raise):
                 for s3, is_retry in self.split_exc(s2, r.exc, tuple(retry_on)):
                     if is_retry:
-                        # a retry request: must have had no effect on the ghost state that carries the properties
+                        # the caller may restrict which readiness its callback is allowed to wait for (env `retry_allowed`:
+                        # a plain socket write waits for writability only - waiting for the other direction can block for ever)
+                        ra = (self.cur_contract.env.get("retry_allowed") if getattr(self, "cur_contract", None) is not None else None)
+                        if ra is not None:
+                            for s4, ok in self.split_exc(s3.clone(), r.exc, tuple(self.class_by_name(n) for n in ra["classes"])):
+                                if not ok:
+                                    self.oblige(s4, z3.BoolVal(False), "retry-direction", line, f"{fi.name}:{ra['name']}", tuple(ra.get("tags", "").split()))
                         for gname in ho["effect_free_ghosts"]:
                             a, b = s3.heap[s3.ghost][gname], before.heap[before.ghost][gname]
                             self.oblige(s3, ops.values_equal(s3, a, b), "retry-effect-free", line, f"{fi.name}:{gname}-unchanged-when-the-callback-would-block")
@@ -781,6 +787,9 @@ class CallMixin(ExprMixin):
         for g in c.env.get("ghost_on_return", {}):
             # such a ghost field is updated by the return event only (never on an exceptional exit): no frame havoc for it
             st.heap[st.ghost][g] = old.heap[old.ghost][g]
+        for g, expr in c.env.get("ghost_on_call", {}).items():
+            # updated by the call event itself, whatever the outcome (evaluated in the pre-state)
+            st.heap[st.ghost][g] = ops.lift(self.eval1(ast.parse(expr, mode="eval").body, old, self.spec_ctx(fi, frame, None, ghosts)))
         results: list[tuple[State, Any]] = []
         live_before = self.feasible(st)
         # exceptional outcomes (entries are matched in order, like except clauses: an exception belongs to the FIRST entry whose
